@@ -160,10 +160,10 @@ func syntaxOf(t string, toks []tok) syntax {
 
 // Known-fragile spelling features.
 const (
-	fBackslashEnd = iota // "...\\" : the closing quote directly follows an escaped backslash
-	fSolidus             // \/
-	fSurrogate           // 😀 style pair
-	fWSAfterMember       // whitespace after a quoted/array/object member value inside an object
+	fBackslashEnd  = iota // "...\\" : the closing quote directly follows an escaped backslash
+	fSolidus              // \/
+	fSurrogate            // a UTF-16 surrogate pair written as two u-escapes
+	fWSAfterMember        // whitespace after a quoted/array/object member value inside an object
 	nFeat
 )
 
